@@ -33,7 +33,7 @@ ASSUMPTIONS = [
     "np.array(view), read as numpy's in-place operator or, where that differs or refuses (a float / wider result for an integer "
     "array), as the binary operator python falls back to for an object without in-place methods; `las.<dim> op= c` by the record's "
     "memory afterwards against the memory after assigning numpy's result",
-    "scales are positive and finite (the monotonicity hypothesis of C10_scaled_minmax; C11 quantifies the same way)",
+    "scales are finite and non-zero, of either sign (the grid route of max/min is guarded by the sign test: C10_scaled_minmax)",
     "ordering and equality comparisons of scaled views are defined on the stored integer grid and excluded by the property",
     "indexing a one-element scaled view with a numpy integer returns a view object that cannot be materialised "
     "(np.array raises): counted as no result, as are expressions that raise on the view (reflected operands 1 + v, -v, v.sum())",
@@ -912,6 +912,7 @@ def rand_index_2d(rng, n, k):
 
 
 SCALES = [1e-9, 1e-3, 0.01, 0.1, 0.25, 0.5, 1.0, 2.0, 1.0 / 3.0, 1234.5678, 0.30000000000000004]
+SCALES += [-0.5, -0.01, -2.0, -1.0 / 3.0]      # legal for extra bytes and for the header: the grid's order is reversed
 OFFSETS = [0.0, 0.5, -100.25, 1e6, 123456.789, -0.001, 1e9, -7.0]
 GRID_TYPES = ["int8", "uint8", "int16", "uint16", "int32", "uint32", "int64", "uint64", "float32", "float64"]
 
@@ -2432,7 +2433,8 @@ def correspond(ctx):
                 kw = {} if init is None else {"initial": init}
                 iv = ev(lambda: getattr(walk(v), r)(**kw))
                 inp = ev(lambda: getattr(walk(a), r)(**kw))
-                cases.append((f"reduce {r} {'F' if init is None else 'T'} {vt} " + " ".join(toks), "reduce", env, data,
+                negs = ",".join(str(j) for j, q in enumerate(env["svec"]) if not q > 0) or "-"
+                cases.append((f"reduce {r} {'F' if init is None else 'T'} {negs} {vt} " + " ".join(toks), "reduce", env, data,
                               expr + [["fn", f"{r}()" if init is None else f"{r}(initial={init})"]], cls, iv, inp, (r, kw)))
         outs = common.run_model([c[0] for c in cases], name="c10")
         for (cmd, what, env, data, expr, cls, iv, inp, extra), mo in zip(cases, outs):
